@@ -1335,8 +1335,8 @@ class ExtendNode(ViewRepresentation):
             return False
         if not self.reverse == other.reverse:
             return False
-        if set(self.ops.keys()) != set(other.ops.keys()):
-            return False
+        if list(self.ops.keys()) != list(other.ops.keys()):
+            return False  # order matters: it is the order of the printed text, the SQL terms and new columns
         for k in self.ops.keys():
             if not self.ops[k].is_equal(other.ops[k]):
                 return False
@@ -1571,8 +1571,8 @@ class ProjectNode(ViewRepresentation):
             return False
         if not self.group_by == other.group_by:
             return False
-        if set(self.ops.keys()) != set(other.ops.keys()):
-            return False
+        if list(self.ops.keys()) != list(other.ops.keys()):
+            return False  # order matters: it is the order of the printed text, the SQL terms and new columns
         for k in self.ops.keys():
             if not self.ops[k].is_equal(other.ops[k]):
                 return False
@@ -2133,6 +2133,8 @@ class MapColumnsNode(ViewRepresentation):
             return False
         if not (self.column_remapping == other.column_remapping):
             return False
+        if list(self.column_remapping.keys()) != list(other.column_remapping.keys()):
+            return False  # order matters: it is the order of the printed text and of the SQL terms
         if not (self.column_deletions == other.column_deletions):
             return False
         return True
@@ -2251,6 +2253,8 @@ class RenameColumnsNode(ViewRepresentation):
             return False
         if not self.column_remapping == other.column_remapping:
             return False
+        if list(self.column_remapping.keys()) != list(other.column_remapping.keys()):
+            return False  # order matters: it is the order of the printed text and of the SQL terms
         return True
 
     def columns_used_from_sources(self, using: Optional[set] = None) -> List:
